@@ -4,6 +4,7 @@ package main
 
 import (
 	"go/constant"
+	"go/token"
 	"go/types"
 	"strings"
 
@@ -318,10 +319,13 @@ func c17Compare(w *World, r *Report) {
 	tokensEqual := func(l Lit) bool {
 		if l.Kind == "eq" && !l.Neg {
 			a, b := l.A, l.B
-			return (a == "md#0" && strings.HasPrefix(b, "^")) || (b == "md#0" && strings.HasPrefix(a, "^"))
+			// the configured token as a whole (the captured parameter itself, not a slice of it)
+			whole := func(x string) bool { return strings.HasPrefix(x, "^") && !strings.ContainsAny(x, "[(+") }
+			return (a == "md#0" && whole(b)) || (b == "md#0" && whole(a))
 		}
 		if l.Kind == "int" && !l.IsNE && l.Lo == 1 && l.Hi == 1 && strings.HasPrefix(l.Terms, "crypto/subtle.ConstantTimeCompare(") && strings.Contains(l.Terms, "md#0") {
-			return true
+			// both operands whole: a sliced or indexed operand compares a prefix / part only
+			return !strings.Contains(l.Terms, "[")
 		}
 		return false
 	}
@@ -453,7 +457,42 @@ func c17TLS(w *World, r *Report) {
 			ob.Violate("cafiles", cf.Pos(), "the CA file list does not contain TrustedCAFile")
 		}
 	}
-	// VerifyPeerCertificate installed whenever CN/hostname configured
+	// VerifyPeerCertificate installed whenever CN/hostname configured. The per-certificate check may
+	// be chosen in baseConfig itself or in a helper of the package that returns it.
+	scope := []*ssa.Function{bc}
+	eachInstr(bc, func(in ssa.Instruction) {
+		if c := plainCall(in); c != nil {
+			if cal := StaticCallee(c); cal != nil && cal.Blocks != nil && cal.Pkg == bc.Pkg && cal != sc {
+				dup := false
+				for _, f := range scope {
+					dup = dup || f == cal
+				}
+				if !dup {
+					scope = append(scope, cal)
+				}
+			}
+		}
+	})
+	var perCert []*ssa.Function
+	for _, f := range scope {
+		for _, cl := range f.AnonFuncs {
+			if len(cl.Params) == 1 && typeIs(cl.Params[0].Type(), "crypto/x509", "Certificate") {
+				perCert = append(perCert, cl)
+			}
+		}
+	}
+	isPerCert := func(v ssa.Value) bool {
+		mc, ok := v.(*ssa.MakeClosure)
+		if !ok {
+			return false
+		}
+		for _, f := range perCert {
+			if mc.Fn == ssa.Value(f) {
+				return true
+			}
+		}
+		return false
+	}
 	var vpcStore ssa.Instruction
 	var vpcFn *ssa.Function
 	eachInstr(bc, func(in ssa.Instruction) {
@@ -475,54 +514,120 @@ func c17TLS(w *World, r *Report) {
 		ob.Violate("no-peer-verification", bc.Pos(), "baseConfig does not install VerifyPeerCertificate")
 	} else {
 		ob.Site(vpcStore.Pos(), "VerifyPeerCertificate installed")
-		// the installation may be guarded by `check != nil` for a local function variable `check`
-		// that is assigned on the AllowedCN / AllowedHostname edges: then the assignment must be
-		// crossed on those edges before the test.
+		// the installation may be guarded by `check != nil`, check being a function variable assigned
+		// on the AllowedCN / AllowedHostname edges, or the function a helper returned
 		var guardIf *ssa.If
 		var guardVar *ssa.Alloc
+		var guardCall *ssa.Call
 		for _, b := range bc.Blocks {
 			iff, ok := b.Instrs[len(b.Instrs)-1].(*ssa.If)
 			if !ok {
 				continue
 			}
 			bo, ok := iff.Cond.(*ssa.BinOp)
-			if !ok || !isNilConst(bo.Y) {
+			if !ok || !isNilConst(bo.Y) || bo.Op != token.NEQ {
+				continue
+			}
+			if _, isSig := bo.X.Type().Underlying().(*types.Signature); !isSig || !b.Succs[0].Dominates(vpcStore.Block()) {
 				continue
 			}
 			if u, ok := bo.X.(*ssa.UnOp); ok {
 				if al, ok := u.X.(*ssa.Alloc); ok {
-					if _, isSig := deref(al.Type()).Underlying().(*types.Signature); isSig && b.Succs[0].Dominates(vpcStore.Block()) {
-						guardIf, guardVar = iff, al
+					guardIf, guardVar = iff, al
+					// a captured variable that holds what a helper returned
+					for _, st := range storesTo(bc, al) {
+						sv := st.Val
+						if ex, ok := sv.(*ssa.Extract); ok {
+							sv = ex.Tuple
+						}
+						if call, ok := sv.(*ssa.Call); ok && StaticCallee(&call.Call) != nil {
+							guardCall = call
+						}
 					}
 				}
 			}
+			v := bo.X
+			if ex, ok := v.(*ssa.Extract); ok {
+				v = ex.Tuple
+			}
+			if call, ok := v.(*ssa.Call); ok && StaticCallee(&call.Call) != nil {
+				guardIf, guardCall = iff, call
+			}
+		}
+		if guardIf != nil {
+			ob.Site(guardIf.Pos(), "peer verification installed when the certificate check is non-nil")
+			// nothing else stands between a non-nil check and the installation
+			isV := func(x ssa.Instruction) bool { return x == vpcStore }
+			if p := (&Walk{Barrier: isV, Target: isSuccessReturn}).Find(Loc{guardIf.Block().Succs[0], 0}); p != nil {
+				ob.Violate("peer-verification-skipped/guard", guardIf.Pos(), "with a certificate check configured baseConfig can still succeed without installing the peer verification (a further condition stands between them)", w.PathString(p)...)
+			}
+			// and no success return avoids the test
+			if p := (&Walk{Barrier: func(x ssa.Instruction) bool { return x == ssa.Instruction(guardIf) }, Target: isSuccessReturn}).Find(entry(bc)); p != nil {
+				ob.Violate("peer-verification-skipped/bypass", instrPos(p.Hit), "baseConfig can succeed without reaching the test that installs the peer verification", w.PathString(p)...)
+			}
 		}
 		for _, fld := range []string{"AllowedCN", "AllowedHostname"} {
-			for _, b := range bc.Blocks {
-				for k := range b.Succs {
-					for _, l := range ctx.EdgeLits(b, k) {
-						if l.Kind == "eq" && l.Neg && strings.Contains(l.A+"|"+l.B, "."+fld) && strings.Contains(l.A+"|"+l.B, `""`) {
-							if guardIf != nil {
+			nEdges := 0
+			for _, g := range scope {
+				for _, b := range g.Blocks {
+					for k := range b.Succs {
+						for _, l := range ctx.EdgeLits(b, k) {
+							if !(l.Kind == "eq" && l.Neg && strings.Contains(l.A+"|"+l.B, "."+fld) && strings.Contains(l.A+"|"+l.B, `""`)) {
+								continue
+							}
+							nEdges++
+							switch {
+							case guardIf != nil && guardVar != nil && g == bc:
 								isAssign := func(x ssa.Instruction) bool {
 									st, ok := x.(*ssa.Store)
 									if !ok || st.Addr != ssa.Value(guardVar) {
 										return false
 									}
-									_, isCl := st.Val.(*ssa.MakeClosure)
-									return isCl
+									return isPerCert(st.Val)
 								}
 								if p := (&Walk{Barrier: isAssign, Target: func(x ssa.Instruction) bool { return x == ssa.Instruction(guardIf) }}).Find(Loc{b.Succs[k], 0}); p != nil {
 									ob.Violate("peer-verification-skipped/"+fld, blockPos(b.Succs[k]), "with "+fld+" configured the certificate check is not assigned before the test that installs the peer verification", w.PathString(p)...)
 								}
-								continue
-							}
-							isV := func(x ssa.Instruction) bool { return x == vpcStore }
-							if p := (&Walk{Barrier: isV, Target: isSuccessReturn}).Find(Loc{b.Succs[k], 0}); p != nil {
-								ob.Violate("peer-verification-skipped/"+fld, blockPos(b.Succs[k]), "with "+fld+" configured baseConfig can succeed without installing the peer verification", w.PathString(p)...)
+							case guardIf != nil && guardCall != nil && g == StaticCallee(&guardCall.Call):
+								// the helper returns the check: on every path from this edge to a success
+								// return the value returned is one of the per-certificate checks
+								idx := 0
+								if ex, ok := guardIf.Cond.(*ssa.BinOp).X.(*ssa.Extract); ok {
+									idx = ex.Index
+								}
+								if guardVar != nil {
+									for _, st := range storesTo(bc, guardVar) {
+										if ex, ok := st.Val.(*ssa.Extract); ok {
+											idx = ex.Index
+										}
+									}
+								}
+								for _, path := range enumPaths(b.Succs[k], 4000) {
+									last := path[len(path)-1]
+									ret, ok := last.Instrs[len(last.Instrs)-1].(*ssa.Return)
+									if !ok || isErrorReturn(ret) || idx >= len(ret.Results) {
+										continue
+									}
+									rv := resolveAlong(retVal(ret, idx), path, len(path)-1)
+									if !isPerCert(rv) {
+										ob.Violate("peer-verification-skipped/"+fld, ret.Pos(), "with "+fld+" configured "+FnName(g)+" can return `"+Expr(rv)+"` instead of a certificate check: the peer verification is not installed")
+										break
+									}
+								}
+							case g == bc:
+								isV := func(x ssa.Instruction) bool { return x == vpcStore }
+								if p := (&Walk{Barrier: isV, Target: isSuccessReturn}).Find(Loc{b.Succs[k], 0}); p != nil {
+									ob.Violate("peer-verification-skipped/"+fld, blockPos(b.Succs[k]), "with "+fld+" configured baseConfig can succeed without installing the peer verification", w.PathString(p)...)
+								}
+							default:
+								ob.Undecided("peer-verification-shape/"+fld, "the "+fld+" test sits in "+FnName(g)+", whose result is not what guards the installation")
 							}
 						}
 					}
 				}
+			}
+			if nEdges == 0 {
+				ob.Violate("peer-verification-skipped/"+fld, bc.Pos(), "no test of "+fld+" decides about the peer verification")
 			}
 		}
 		// the verification function: uses only verified chains (param 1), errors when none
@@ -550,10 +655,7 @@ func c17TLS(w *World, r *Report) {
 		}
 		// per-certificate checks
 		ncn, nhost := 0, 0
-		for _, cl := range bc.AnonFuncs {
-			if len(cl.Params) != 1 || !typeIs(cl.Params[0].Type(), "crypto/x509", "Certificate") {
-				continue
-			}
+		for _, cl := range perCert {
 			cctx := &ExprCtx{}
 			for _, b := range cl.Blocks {
 				for k := range b.Succs {
